@@ -665,8 +665,9 @@ fn main() {
     let thorough = ctx.thorough() || ctx.only.is_some();
     // quick: complete graphs for every K in 0..=8, three element sizes (0, 4, 24 bytes)
     units!(&mut ctx, &mut tot, &mut unit, false, 3, [Tr<0>, TrZ, Tr<5>], [0, 1, 2, 3, 4, 5, 6, 7, 8]);
+    units!(&mut ctx, &mut tot, &mut unit, false, 0, [Tr<0>, TrZ], [9, 10, 11, 12]);
     if thorough {
-        units!(&mut ctx, &mut tot, &mut unit, false, 0, [Tr<0>, TrZ], [9, 10, 11, 12, 13, 14, 15, 16, 17]);
+        units!(&mut ctx, &mut tot, &mut unit, false, 0, [Tr<0>, TrZ], [13, 14, 15, 16, 17]);
         units!(&mut ctx, &mut tot, &mut unit, false, 0, [Tr<0>], [31, 32, 33]);
         units!(&mut ctx, &mut tot, &mut unit, true, 0, [Tr<0>, TrZ, u32], [64, 100]);
         units!(&mut ctx, &mut tot, &mut unit, false, 4, [u32], [0, 1, 2, 3, 4]);
